@@ -71,7 +71,7 @@ auto gemm_n(Context&& ctxt, typename It2DA::element alpha, It2DA a_first, Size a
 		else if(a_count==1)                         {CTXT->gemm('N', 'T', (*c_first).size(), a_count, (*a_first).size(), &alpha, b_first.base(), (*b_first).stride(), a_first.base(), (*a_first).size()  , &beta, c_first.base(), (*c_first).stride());}
 		else if((*a_first).size() == 1 && (*b_first).size() == 1)
 		                                            {CTXT->gemm('N', 'N', (*c_first).size(), a_count, (*a_first).size(), &alpha, b_first.base(), (*b_first).stride(), a_first.base(), a_first. stride(), &beta, c_first.base(), (*c_first).stride());}
-		else                                        {CTXT->gemm('N', 'T', (*c_first).size(), a_count, (*a_first).size(), &alpha, b_first.base(), (*b_first).stride(), a_first.base(), a_first. stride(), &beta, c_first.base(), (*c_first).stride());}
+		else                                        {CTXT->gemm('T', 'N', a_count, (*c_first).size(), (*a_first).size(), &alpha, a_first.base(), a_first. stride(), b_first.base(), (*b_first).stride(), &beta, c_first.base(), (*c_first).stride());}  // C (column-major) = A (row-major) B (column-major)
 	}else if((*a_first).stride()==1 && b_first. stride()==1 && (*c_first).stride()==1) {
 		if  (a_count==1)                            {CTXT->gemm('T', 'N', a_count, (*c_first).size(), (*a_first).size(), &alpha, b_first.base(), (*b_first).stride(), a_first.base(), (*a_first).size(), &beta, c_first.base(), c_first. stride());}
 		else                                        {CTXT->gemm('T', 'N', (*c_first).size(), a_count, (*a_first).size(), &alpha, b_first.base(), (*b_first).stride(), a_first.base(), a_first. stride(), &beta, c_first.base(), c_first. stride());}
